@@ -70,6 +70,8 @@ def fault_catalogue():
         "sigterm-after-complete-reply": {"behaviour": "replyterm", "reply": VALID_REPLY},
         "stderr-exit0": {"behaviour": "stderr", "reply": VALID_REPLY},
         "stderr-binary": {"behaviour": "stderrbin", "reply": VALID_REPLY},
+        "stderr-single-newline": {"behaviour": "stderrnl", "reply": VALID_REPLY},      # "writes to stderr": any byte counts
+        "stderr-white-space-only": {"behaviour": "stderrsp", "reply": VALID_REPLY},
         "no-read-fail": {"behaviour": "noreadfail", "reply": b""},
         "no-read-exit0": {"behaviour": "noread", "reply": b""},     # exits 0 without reading and without replying
         "flood-before-reading": {"behaviour": "floodfirst", "reply": b""},   # > 64 KiB of output before it reads its input
